@@ -90,6 +90,30 @@ SegClass(q16, a, b, in16, out16) ==
   IN [near |-> interior /\ in16 > 0 /\ distLT(in16), far |-> ~distLT(out16), interior |-> interior,
       t256 |-> IF L2 = 0 THEN 0 ELSE ((dot \div 16) * 256) \div (L2 \div 16)]
 
+(* is the join at vertex v (neighbours a, b) mitered under miterlimit ml?  SVG 11.4: the miter length   *)
+(* ratio 1/sin(theta/2) must not exceed ml, theta the angle between the segments at v; exactly:          *)
+(*   cos(theta) <= 1 - 2/ml^2   <=>   (u.w) ml^2 <= (ml^2 - 2) |u||w|      (u = a - v, w = b - v)         *)
+Mitered(v, a, b, ml) ==
+  LET ux == a[1] - v[1]  uy == a[2] - v[2]  wx == b[1] - v[1]  wy == b[2] - v[2]
+      dt == ux * wx + uy * wy
+      K  == ml * ml - 2
+      n2 == (ux * ux + uy * uy) * (wx * wx + wy * wy)
+  IN IF dt <= 0 THEN K >= 0 \/ (dt * ml * ml) * (dt * ml * ml) >= K * K * n2   \* blunt corner
+     ELSE IF K <= 0 THEN FALSE
+     ELSE IF dt > 2000 \/ n2 > 150000 THEN TRUE                                  \* out of range: assume the larger reach
+     ELSE (dt * ml * ml) * (dt * ml * ml) <= K * K * n2
+
+(* how far (1/16 units) the stroke can reach from vertex j of contour c *)
+VertexReach16(c, j, sp) ==
+  LET n == NPts(c.pts)
+      hw == 8 * sp.w
+      isCap == ~c.closed /\ (j = 1 \/ j = n)
+      prev == PtAt(c.pts, IF j = 1 THEN n ELSE j - 1)
+      next == PtAt(c.pts, IF j = n THEN 1 ELSE j + 1)
+  IN IF isCap THEN (IF sp.cap = "square" THEN (3 * hw) \div 2 + 1 ELSE hw)
+     ELSE IF sp.join = "miter" /\ Mitered(PtAt(c.pts, j), prev, next, sp.ml) THEN sp.ml * hw
+     ELSE hw
+
 StrokeMem(tag, g, sp, q, cs0) ==     \* cs0 = StrokeContours(tag, g), computed once per layer
   IF tag = "circle"
   THEN \* annulus about the centre: |r - w/2| .. r + w/2   (no dashes judged on circles)
@@ -116,7 +140,7 @@ StrokeMem(tag, g, sp, q, cs0) ==     \* cs0 = StrokeContours(tag, g), computed o
       q16 == Q16(q)
       hw16 == 8 * sp.w
       in16 == hw16 - Beta16
-      out16 == Extent16(sp) + Beta16
+      out16 == hw16 + Beta16          \* beyond this from every segment (vertices are treated apart)
       arr == DashArr(sp.dash)
       period == SumD(arr, 1)
       dashed == arr # <<>> /\ period > 0
@@ -132,14 +156,22 @@ StrokeMem(tag, g, sp, q, cs0) ==     \* cs0 = StrokeContours(tag, g), computed o
       OnAt(c, i)  == ~dashed \/ (AllIntLen(c) /\ DashClass(arr, 1, 0, Phase(c, i), Beta16 + 1) = "on")
       OffAt(c, i) == dashed /\ AllIntLen(c) /\ DashClass(arr, 1, 0, Phase(c, i), capext16 + Beta16 + 1) = "off"
       segs == UNION { {<<c, i>> : i \in 1..NSegs(cs[c])} : c \in 1..Len(cs) }
+      verts == UNION { {<<c, j>> : j \in 1..NPts(cs[c].pts)} : c \in 1..Len(cs) }
       \* classify q against every segment ONCE (a function is evaluated eagerly, operators are not memoised)
       CL == [ci \in segs |-> Cls(cs[ci[1]], ci[2])]
       near == {ci \in segs : CL[ci].near}
-      reach == {ci \in segs : ~CL[ci].far}
+      reach == {ci \in segs : ~CL[ci].far}               \* segments closer than w/2 + beta
+      \* vertices whose cap / join could reach q (a mitered join reaches up to miterlimit * w/2)
+      vreach == {cj \in verts :
+                   LET v == PtAt(cs[cj[1]].pts, cj[2])
+                       r == VertexReach16(cs[cj[1]], cj[2], sp) + Beta16
+                       dx == q16[1] - 16 * v[1]  dy == q16[2] - 16 * v[2]
+                   IN Abs(dx) <= r /\ Abs(dy) <= r /\ dx * dx + dy * dy <= r * r}
   IN IF \E ci \in near : OnAt(cs[ci[1]], ci[2]) THEN "in"
-     ELSE IF reach = {} THEN "out"
-     \* inside the reach of exactly one segment, and the projection of q onto it is well inside a gap
-     ELSE IF dashed /\ Cardinality(reach) = 1
+     ELSE IF reach = {} /\ vreach = {} THEN "out"
+     \* within w/2 + beta of exactly one segment, away from every vertex, and the projection of q onto
+     \* that segment is well inside a gap of the dash pattern
+     ELSE IF dashed /\ Cardinality(reach) = 1 /\ vreach = {}
              /\ (LET ci == CHOOSE ci \in reach : TRUE
                  IN CL[ci].interior /\ OffAt(cs[ci[1]], ci[2]))
           THEN "out"
